@@ -13,6 +13,7 @@ import (
 	"strconv"
 	"strings"
 	"sync"
+	"syscall"
 	"time"
 )
 
@@ -79,6 +80,12 @@ func Main(checks map[string]*Check) {
 		k, _ := strconv.Atoi(os.Args[4])
 		n, _ := strconv.Atoi(os.Args[5])
 		out := os.Args[6]
+		// a runaway allocation in the code under test must kill this worker (attributed to its current case), not the machine
+		var lim syscall.Rlimit
+		if syscall.Getrlimit(syscall.RLIMIT_AS, &lim) == nil {
+			lim.Cur = 6 << 30
+			syscall.Setrlimit(syscall.RLIMIT_AS, &lim)
+		}
 		c := NewCtx(id, tier, k, n)
 		c.Seed = seed
 		if len(os.Args) > 7 {
